@@ -306,8 +306,8 @@ func (x *Ctx) nilEmbedClass(p interface{}) string {
 		for _, a := range ms.Attrs {
 			f, st := getField(mv, a)
 			if st == fEmbedNil {
-				if a.Kind != spec.KScalar && a.Kind != spec.KCustom {
-					cls = "nil-embed-with-collection-or-message-child"
+				if a.Kind != spec.KScalar {
+					cls = "nil-embed-with-collection-message-or-custom-child"
 				} else if cls == "no-nil-embed" {
 					cls = "nil-embed"
 				}
@@ -367,8 +367,8 @@ func (x *Ctx) embedTypeClass() string {
 	walk = func(ms *spec.Msg) {
 		for _, a := range ms.Attrs {
 			if a.InEmbedPtr() {
-				if a.Kind != spec.KScalar && a.Kind != spec.KCustom {
-					cls = "type-has-nullable-embed-with-collection-or-message-child"
+				if a.Kind != spec.KScalar {
+					cls = "type-has-nullable-embed-with-collection-message-or-custom-child"
 				} else if cls == "no-nullable-embed" {
 					cls = "type-has-nullable-embed"
 				}
